@@ -336,3 +336,65 @@ Proof.
   { intros B g dflt. rewrite (nth_indep _ dflt (g dflt_prec)) by (rewrite map_length; exact Hi). apply map_nth. }
   rewrite !G. repeat split. intros d Hd. rewrite nth_map_seq by exact Hd. rewrite map_map. apply G.
 Qed.
+
+(* ------------------------------------------------------------------ *)
+(* a strict prefix of a reference stream is rejected                    *)
+(* ------------------------------------------------------------------ *)
+Definition body_ref (ps : list prec) : list N :=
+  flat_map p_pos ps ++ map p_alpha ps ++ flat_map p_col ps ++ flat_map p_scale ps ++ flat_map p_rot ps ++ flat_map p_sh ps.
+
+Lemma encode_ref_body h ps : encode_ref h ps = enc_header h ++ body_ref ps.
+Proof. reflexivity. Qed.
+
+Lemma enc_header_length h : length (enc_header h) = 16%nat.
+Proof. reflexivity. Qed.
+
+Lemma body_ref_length h ps : lengths_match h ps -> N.of_nat (length (body_ref ps)) = total_size h.
+Proof.
+  intros [Hn Hps]. unfold body_ref, total_size.
+  assert (Fpos : Forall (fun p => length (p_pos p) = pos_size h) ps) by (eapply Forall_impl; [|exact Hps]; intros p Hp; apply Hp).
+  assert (Fcol : Forall (fun p => length (p_col p) = 3%nat) ps) by (eapply Forall_impl; [|exact Hps]; intros p Hp; apply Hp).
+  assert (Fsc : Forall (fun p => length (p_scale p) = 3%nat) ps) by (eapply Forall_impl; [|exact Hps]; intros p Hp; apply Hp).
+  assert (Frot : Forall (fun p => length (p_rot p) = 3%nat) ps) by (eapply Forall_impl; [|exact Hps]; intros p Hp; apply Hp).
+  assert (Fsh : Forall (fun p => length (p_sh p) = (3 * sh_dim (h_shdeg h))%nat) ps) by (eapply Forall_impl; [|exact Hps]; intros p Hp; apply Hp).
+  rewrite !app_length, map_length.
+  rewrite (flat_map_fixed_length _ _ _ Fpos), (flat_map_fixed_length _ _ _ Fcol), (flat_map_fixed_length _ _ _ Fsc),
+          (flat_map_fixed_length _ _ _ Frot), (flat_map_fixed_length _ _ _ Fsh).
+  rewrite <- Hn. set (n := length ps). set (k := pos_size h). set (dim := sh_dim (h_shdeg h)). nia.
+Qed.
+
+Lemma get32_length l w r : get32 l = Some (w, r) -> length l = (4 + length r)%nat.
+Proof.
+  unfold get32. destruct (take 4 l) as [[a r']|] eqn:E; cbn [bind]; [|discriminate].
+  destruct (de_le32 a); cbn [bind]; [|discriminate]. intros H.
+  assert (r' = r) as -> by congruence. apply take_spec in E. destruct E as [-> Hl].
+  rewrite app_length. lia.
+Qed.
+
+Lemma get_header_length l h r : get_header l = Some (h, r) -> length l = (16 + length r)%nat.
+Proof.
+  unfold get_header.
+  destruct (get32 l) as [[m r1]|] eqn:E1; cbn [bind]; [|discriminate].
+  destruct (get32 r1) as [[v r2]|] eqn:E2; cbn [bind]; [|discriminate].
+  destruct (get32 r2) as [[n r3]|] eqn:E3; cbn [bind]; [|discriminate].
+  destruct r3 as [|d [|f [|g [|z r']]]]; try discriminate.
+  intros H. assert (r' = r) as -> by congruence.
+  apply get32_length in E1, E2, E3. simpl length in *. lia.
+Qed.
+
+Theorem decode_prefix_rejected h ps k :
+  header_ok h -> validate h = true -> lengths_match h ps ->
+  (k < length (encode_ref h ps))%nat -> decode (firstn k (encode_ref h ps)) = None.
+Proof.
+  intros Hh Hv Hm Hk. rewrite encode_ref_body in *. rewrite app_length, enc_header_length in Hk.
+  destruct (Nat.lt_ge_cases k 16) as [Hlt|Hge].
+  - unfold decode. destruct (get_header (firstn k (enc_header h ++ body_ref ps))) as [[h' r]|] eqn:E; [|reflexivity].
+    apply get_header_length in E. rewrite firstn_length in E. lia.
+  - rewrite firstn_app, enc_header_length. rewrite (firstn_all2 (enc_header h)) by (rewrite enc_header_length; lia).
+    unfold decode. rewrite get_header_enc by assumption. cbn [bind]. rewrite Hv. cbn [negb].
+    replace (N.of_nat (length (firstn (k - 16) (body_ref ps))) <? total_size h) with true; [reflexivity|].
+    symmetry. apply N.ltb_lt. rewrite <- (body_ref_length h ps Hm). rewrite firstn_length. lia.
+Qed.
+
+Theorem decode_invalid_header h rest : header_ok h -> validate h = false -> decode (enc_header h ++ rest) = None.
+Proof. intros Hh Hv. unfold decode. rewrite get_header_enc by assumption. cbn [bind]. rewrite Hv. reflexivity. Qed.
